@@ -6,6 +6,10 @@ ALL = ['C%02d' % i for i in range(1, 21)]
 
 # id -> (engine, technique, level text, level note, design ref)
 CLAIMED = {
+ 'C14': ('E3-hypothesis', 'property-based testing: byte-offset equation between generated source and exported outline notes (XML parser), and export/import round-trip relation on the HTML rendering',
+         'Documents generated from heading trees with hostile section bodies are exported to OPML; the outline must parse, list preamble/headings/metadata in order, and every note must equal the exact source bytes between two headings (offsets known to the generator). For properly nested documents the complete HTML of the re-imported text must equal the original rendering and be a fixed point. Held on everything generated; one known finding (final-newline dependence) is reported as such.',
+         'Trusted: Hypothesis, Python ElementTree (attribute-value normalisation is part of XML and therefore of the oracle).',
+         'DESIGN.md section 5, C14'),
  'C10': ('E3-hypothesis', 'property-based testing with a validity oracle over the parsed HTML (XML parser): href/id resolution, list membership, numbering by first use, back-links, TOC and cross-reference targets',
          'Generated documents with notes, citations, glossary terms (defined, inline, re-used, unused, not cited), headings of every style, manual labels, duplicate and punctuated titles, captioned tables, TOC and title/label cross-references are rendered under default / --random / --unique / --nolabels / base-header-level and the anchor graph of the output is checked for resolution, right targets, numbering and order. Held on everything generated; one known finding is reported as such.',
          'Trusted: Hypothesis, Python ElementTree. Cross-references only to uniquely titled headings; rand() state is pinned for the random-anchor modes.',
